@@ -6,7 +6,7 @@ import os
 import subprocess
 import sys
 
-from common import Ctx, REPO, import_repo
+from common import FakeClock, Ctx, REPO, import_repo
 
 
 def cps(s):
@@ -41,12 +41,10 @@ class FakeClient:
         return f
 
 
-class FakeTime:
+class FakeTime(FakeClock):
     def __init__(self):
         self.now = 1_000_000.0
-
-    def time(self):
-        return self.now
+        super().__init__(lambda: self.now)
 
 
 def main(argv):
